@@ -64,7 +64,7 @@ Definition val_of_pseudo (p : pseudo_t) : val := VL (map (fun kx => VL [VT (fst 
 Definition val_of_mobj (m : mobj) : val :=
   match merged m with None => VT "self" [] | Some l => VT "merged" [VL (map val_of_pseudo l)] end.
 
-(* scenario: (Wg (g ...) coll (fix_d12 fix_d9 fix_dst) (md_0 ...)): md_i is the dict name -> state_dict of rank i's metric(s);
+(* scenario: (Wg (g ...) coll (fix_d12 fix_d9 fix_dst fix_d10 fix_dt) (md_0 ...)): md_i is the dict name -> state_dict of rank i's metric(s);
    coll = 0: a single metric (the only entry of md_i), coll = 1: get_synced_metric_collection *)
 (* @model sync_toolkit run_sync_toolkit *)
 Definition run_sync_toolkit (v : val) : val :=
